@@ -297,6 +297,28 @@ def matches(k, f):
         return False
     if "run_contains" in m and m["run_contains"] not in str(f.get("run", "")):
         return False
+    if "lines_contain" in m:
+        # every pattern must match some event of the failing run / schedule (its history identifies the finding)
+        evs = []
+        for ln in f.get("lines", []):
+            try:
+                evs.append(json.loads(ln))
+            except Exception:
+                pass
+        # only the failing schedule: events after the last rewind
+        last = max([i for i, e in enumerate(evs) if e.get("ev") == "rewind"], default=-1)
+        seg = evs[last + 1:]
+        for pat in m["lines_contain"]:
+            if not any(all(e.get(k) == v for k, v in pat.items()) for e in seg):
+                return False
+        if m.get("overcounted_trees_unreserved"):
+            # the finding over-counts only UNRESERVED trees: (tree counter > free frames of the tree, no slot on it)
+            obs = next((e["obs"] for e in reversed(seg) if e.get("ev") == "obs" and "obs" in e), None)
+            if not obs or "trees" not in obs:
+                return False
+            over = [t for t, w in enumerate(obs["trees"]) if w[0] > obs["tfree"][t][0]]
+            if not over or any(obs["trees"][t][1] != 0 for t in over):
+                return False
     return True
 
 
